@@ -298,8 +298,9 @@ mod verif_lex {
         let s = as_str(&buf);
         let mut state = st(false, false);
         let r = line_comment(LexArgs { input: s, offset: 4, lex_state: &mut state });
-        let lf = w[0] == b'\n' || w[1] == b'\n';
-        kani::cover!(!lf && (w[0] == b'\r' || w[1] == b'\r'), "CR only before the comment");
+        // a line break before the comment: LF or a lone CR (the scanner ends comments and literals at either)
+        let lf = w[0] == b'\n' || w[1] == b'\n' || w[0] == b'\r' || w[1] == b'\r';
+        kani::cover!(w[0] != b'\n' && w[1] != b'\n' && (w[0] == b'\r' || w[1] == b'\r'), "CR only before the comment");
         assert!(r.1 == TT::Comment(if lf { CommentKind::IndividualLine } else { CommentKind::InlineLine }),
             "OB lexcomplex/line_comment_kind: first on its line => individual, otherwise inline");
     }
@@ -388,6 +389,31 @@ mod verif_lex {
     #[kani::proof]
     #[kani::unwind(9)]
     fn lexcomplex_dec_number5() { run_dec::<5>(); }
+
+    // identifiers and keywords: extent only (after `.` no keyword lookup happens)
+    #[kani::proof]
+    #[kani::unwind(8)]
+    #[kani::stub(find_identifier_end_x86_64, find_identifier_end_generic)]
+    fn lexcomplex_word_extent() {
+        let mut buf = [0u8; 5];
+        window(&mut buf, &[], 0);
+        kani::assume((buf[0] >= b'a' && buf[0] <= b'z') || (buf[0] >= b'A' && buf[0] <= b'Z'));
+        let s = as_str(&buf);
+        let mut state = st(false, false);
+        state.prev_real_token = Some(TT::Op(OK::Dot));
+        let r = identifier_or_keyword(LexArgs { input: s, offset: 1, lex_state: &mut state });
+        let e = 1 + run(&buf, 1, is_ident_ascii);
+        kani::cover!(e == 5, "word fills the window");
+        kani::cover!(e == 1, "one-letter word");
+        assert!(sub_ok(s, 1, r) && r.0 == e, "OB lexcomplex/word_extent: a word is the maximal run of identifier characters");
+        assert!(r.1 == TT::Identifier, "OB lexcomplex/word_after_dot: after `.` every word is an identifier");
+        assert!(!state.in_asm, "OB lexcomplex/asm_mode_entered: the keyword asm (and only it) switches to the asm scanner");
+    }
+
+    // a quote + 2 bytes: the cheap sibling of lexcomplex_text_literal4
+    #[kani::proof]
+    #[kani::unwind(4)]
+    fn lexcomplex_text_literal3() { run_text::<3>(); }
 
     // identifiers and keywords
     #[kani::proof]
